@@ -49,6 +49,23 @@ MECH = {
  "C14-r3b": "tf.data `cycle_length = file_parallelism or len(shard_paths)`",
  "C19-r3a": "Rust: static iterator key = map length (two live streams, epoch roll-over)",
  "C19-r3b": "unshuffled reader as sliding window of futures topped up from done-callbacks; deque append outside the lock",
+ "C05-r3a": "128 KiB read buffer of `hash_checksums` hoisted to module level: two threads hashing at once corrupt each other's digests",
+ "C05-r3b": "parsed shard lists memoised per Dataset; `write_config` forgets only the updated lists, not their rewritten ancestors",
+ "C10-r3a": "filler-wide 'shard is full' flag set after a write, consumed by the next one (wrong split when writes interleave)",
+ "C10-r3b": "npz writer `_buffer` declared at class level and only mutated in place: all writers of the process share it",
+ "C11-r3a": "`validate_assignment=True` on ShardInfo + plain assignment instead of deepcopy: nested values stay aliased",
+ "C11-r3b": "metadata change detection walks the keys of the new label only (sub-dictionary = unchanged)",
+ "C12-r3a": "tf.data generator path passes `shards=len(shard_paths)` on: a second selection over the resolved one",
+ "C12-r3b": "metadata keys serialised once for the unfiltered list, zipped against the filtered one",
+ "C15-r3a": "Rust: `allow_threads` while the static iterator mutex is held (lock-order inversion with the GIL)",
+ "C15-r3b": "Rust worker catches the panic and sends None: failed shard = end of data",
+ "C16-r3b": "hash objects grouped hashlib-first, xxhash-last instead of the configured order",
+ "C17-r3a": "`check()` first pass walks child lists from raw JSON (paths opened before validation)",
+ "C17-r3b": "reader sites join the root with `PureWindowsPath(rel).as_posix()` after validation: `..\\` escapes",
+ "C18-r3a": "npz writer checks 'exactly the declared names' only for the first example of a shard",
+ "C18-r3b": "new ShardProgress stored only after a successful write + idempotent `Shard.close`: a rejected rotating write lists the old shard twice",
+ "C20-r3a": "`write_config(updated_infos=[])` returns the existing file instead of re-serialising the description",
+ "C20-r3b": "root resolved with `strict=True`, fallback keeps the relative path of a not-yet-created dataset",
  "C03-b": "`imap_unordered` + results re-sorted but fillers merged in completion order",
  "C04-a": "merge keeps un-updated children verbatim: child with a deeper update listed twice",
  "C04-b": "example counter incremented before `_write`: rejected writes counted",
